@@ -200,7 +200,7 @@ impl Prop for C14 {
             }
         }
         // a second process must derive the same identities (spread of seeds)
-        let exe = std::env::current_exe().map_err(|e| e.to_string())?;
+        let exe = crate::explore::self_exe()?;
         let spread: Vec<&Vec<u8>> = ss.iter().step_by((ss.len() / 6).max(1)).collect();
         for s in &spread {
             // the seed goes through a file: it can be longer than an argument list allows
